@@ -73,7 +73,7 @@ CHARS = [c for c in range(33, 127) if c in M.RAW_OK]
 
 
 def budget(tier):
-    return dict(examples=6400 if tier == "quick" else 128000, shards=16)
+    return dict(examples=6400 if tier == "quick" else 64000, shards=16)
 
 
 # ------------------------------------------------------------------------------------ generator
